@@ -655,12 +655,15 @@ def paramReq (p : Program) (q : Param) : List EK :=
     else [.paramBounds]
   else []
 
+/-- Everything `check_constraints` reports about one field. -/
+def fieldConstraints (p : Program) (t : TypeInfo) (f : Field) : List EK :=
+  if f.isVirtual then (if isReserved f.name then [.reservedField] else [])
+  else allowedInBits p t f ++ arrayChecks p t true f.ty ++ typeReq p t f
+       ++ (if isReserved f.name then [.reservedField] else [])
+
 def constraintsOfType (p : Program) (c : Option AVal × TypeInfo) : List EK :=
   let t := c.2
-  t.fields.flatMap (fun f =>
-    if f.isVirtual then (if isReserved f.name then [.reservedField] else [])
-    else allowedInBits p t f ++ arrayChecks p t true f.ty ++ typeReq p t f
-         ++ (if isReserved f.name then [.reservedField] else []))
+  t.fields.flatMap (fieldConstraints p t)
   ++ sizeOfBits t
   ++ t.values.flatMap (fun v => if isReserved v.name then [.reservedEnum] else [])
   ++ (if isReserved t.name then [.reservedType] else [])
